@@ -394,7 +394,13 @@ func computeReach(fn *ssa.Function, cell ssa.Value) map[ssa.Instruction]*reachIn
 // loads of local cells through their reaching stores and phis through their
 // edges. It returns the set of origin values and whether an unknown definition
 // (escaped cell, zero value, external write) may also reach.
-func Origins(v ssa.Value) (vals []ssa.Value, unknown bool) {
+func Origins(v ssa.Value) (vals []ssa.Value, unknown bool) { return origins(v, true) }
+
+// OriginsNoExpand is Origins that stops at the call of a new helper (the
+// caller wants the helper itself).
+func OriginsNoExpand(v ssa.Value) (vals []ssa.Value, unknown bool) { return origins(v, false) }
+
+func origins(v ssa.Value, expand bool) (vals []ssa.Value, unknown bool) {
 	seen := map[ssa.Value]bool{}
 	var walk func(v ssa.Value)
 	walk = func(v ssa.Value) {
@@ -438,6 +444,27 @@ func Origins(v ssa.Value) (vals []ssa.Value, unknown bool) {
 			}
 			vals = append(vals, v)
 		default:
+			// the producing expression was extracted into a function that is new since the
+			// anchor snapshot: the origins are those of what the helper returns
+			if call, idx, ok := CallResult(v); ok && expand && IsNewFunc != nil && len(seen) < 400 {
+				if h := CalleeFunc(&call.Call); h != nil && h.Blocks != nil && IsNewFunc(h) && idx < h.Signature.Results().Len() {
+					n := 0
+					bindParams(h, call, func() {
+						for _, b := range h.Blocks {
+							if b == h.Recover || len(b.Instrs) == 0 {
+								continue
+							}
+							if ret, isRet := b.Instrs[len(b.Instrs)-1].(*ssa.Return); isRet && idx < len(ret.Results) {
+								walk(ret.Results[idx])
+								n++
+							}
+						}
+					})
+					if n > 0 {
+						return
+					}
+				}
+			}
 			vals = append(vals, v)
 		}
 	}
